@@ -184,6 +184,9 @@ class C16(Prop):
                     edits.append(["index_inplace", g.randrange(8), g.choice([0.25, -0.5, 1.0, 1e-4])])
                 elif q < 0.45:
                     edits.append(["index_rebind", g.choice(["inc", "dec", "irr"]), g.randrange(50)])
+                elif q < 0.5:
+                    # the whole table is replaced (set_data / the data setter): another spacing, the same last depth
+                    edits.append(["table_keep_last", g.choice([0.5, 2.0, 3.0]), g.choice(["setter", "set_data"])])
                 elif q < 0.6:
                     edits.append(["well_item", g.choice(["ELEV", "KB", "ELEV", ""]), g.choice(["M", "", "FT"]),
                                   g.choice(["", None, 0, 0.0, 12.5, "x"])])
@@ -211,7 +214,8 @@ class C16(Prop):
                 # data table was looked at
                 w["pre"] = [g.choice([["touch_data"], ["index_inplace", g.randrange(8), g.choice([0.25, -0.5, 100.0])],
                                       ["index_scale", g.choice([0.3048, 2.0])], ["other_inplace", g.randrange(8), g.randrange(8)],
-                                      ["index_rebind", g.choice(["inc", "dec", "irr"]), g.randrange(50)]]) for _ in range(g.randint(1, 2))]
+                                      ["index_rebind", g.choice(["inc", "dec", "irr"]), g.randrange(50)],
+                                      ["table_keep_last", g.choice([0.5, 2.0]), g.choice(["setter", "set_data"])]]) for _ in range(g.randint(1, 2))]
             if g.random() < 0.25 and w["channel"] != "stringio":
                 w["fault"] = {"kind": "write", "nth": st.fault.randint(1, 3), "errno": st.fault.choice(["ENOSPC", "EIO"])}
             writes.append(w)
@@ -311,6 +315,22 @@ class C16(Prop):
                     if not np.array_equal(new, las.index):
                         changed = True
                     las.curves[0].data = new
+            elif k == "table_keep_last":
+                try:
+                    ok = len(las.curves) and len(las.index) >= 2 and all(np.asarray(c.data).dtype.kind == "f" for c in las.curves)
+                    d = np.array(las.data, dtype=float, copy=True) if ok else None
+                except Exception:
+                    d = None
+                if d is not None and d.ndim == 2 and np.all(np.isfinite(d[:, 0])) and d[1, 0] != d[0, 0]:
+                    n = len(d)
+                    step = (d[1, 0] - d[0, 0]) * e[1]
+                    d[:, 0] = d[-1, 0] - step * np.arange(n - 1, -1, -1)
+                    if e[2] == "setter":
+                        las.data = d
+                    else:
+                        las.set_data(d)
+                    changed = True
+                    res.count("table-replaced-keeping-last-depth")
             elif k == "well_item":
                 las.well.append(lasio.HeaderItem(e[1], e[2], e[3], "added %s" % e[1]))
             elif k == "param_item":
